@@ -312,9 +312,11 @@ func c06ChooseEdit(r *vx.Run, text string, docFirst, docLast int, kinds []string
 					first = false
 					continue
 				}
+				// letters, and hyphens inside the word ("non-exclusive": one of the split points is
+				// right behind the word's own hyphen)
 				allLetters := true
-				for _, r := range f {
-					if !(r >= 'a' && r <= 'z' || r >= 'A' && r <= 'Z') {
+				for i, r := range f {
+					if !(r >= 'a' && r <= 'z' || r >= 'A' && r <= 'Z' || r == '-' && i > 0 && i < len(f)-1 && f[i-1] != '-') {
 						allLetters = false
 					}
 				}
@@ -714,7 +716,7 @@ func c06Key(id, class string, onlyNotice bool) string {
 
 // c06Tokens: tokenizer level over short texts built from token classes.
 func c06Tokens(c *vrep.Ctx) {
-	syms := []string{"alpha", "Beta", "licence", "organization", "1.", "a)", "iv.", "2.0", "http://x.y/z", "(c)", "\n", "copyright 2000 x\n", "foobar-\n", "gamma\n"}
+	syms := []string{"alpha", "Beta", "licence", "organization", "1.", "a)", "iv.", "2.0", "http://x.y/z", "(c)", "\n", "copyright 2000 x\n", "foobar-\n", "gamma\n", "non-exclusive"}
 	maxLen := c.Pick(4, 5)
 	c.R.Rule = fmt.Sprintf("tokenizer level: all texts of <=%d symbols over %q (blank separated) x every C06 edit (each notice/date template at each line gap, each marker on one/all eligible lines, every split point of every long word, every applicable spelling pair, http/https); the (word) sequences must be equal, lines mapped, inserted notices produce a Copyright pseudo-match on their line; non-trivial = distinct (text, edit) pairs", maxLen, syms)
 	c.Bound("max_symbols", maxLen)
